@@ -1,14 +1,14 @@
-CONSTANT MaxExt = 3
-CONSTANT MaxSG = 1
-CONSTANT MaxUx = 1
+CONSTANT MaxExt = 2
+CONSTANT MaxSG = 0
+CONSTANT MaxUx = 0
 CONSTANT MaxMeta = 1
 CONSTANT MaxFeed = 3
 CONSTANT MaxCache = 1
 CONSTANT MaxGet = 1
-CONSTANT Deletes = TRUE
+CONSTANT Deletes = FALSE
 CONSTANT Split = TRUE
-CONSTANT Conflicts = FALSE
-CONSTANT MaxSteps = 10
+CONSTANT Conflicts = TRUE
+CONSTANT MaxSteps = 8
 SPECIFICATION Spec
 VIEW view
 INVARIANT SettledStable
